@@ -137,7 +137,7 @@ Example handshake_server t0 rc :
   r_cum (fst (run (init_r 0 rc) [IInit t0; ICookieEcho true])) = w32 (t0 - 1).
 Proof.
   split; [repeat constructor|].
-  unfold run, step, init_r, connected, establish. cbn [r_conn SctpState_eqb r_app a_chans r_cum r_rq a_streams].
+  unfold run, step, init_r, connected, establish, mkApp. cbn [r_conn SctpState_eqb r_app a_chans r_cum r_rq a_streams a_dcep].
   destruct (on_established rc); split; reflexivity.
 Qed.
 Example handshake_client t0 rc :
@@ -146,54 +146,61 @@ Example handshake_client t0 rc :
   r_cum (fst (run (init_r 0 rc) [IInitAck t0 true; ICookieAck])) = w32 (t0 - 1).
 Proof.
   split; [repeat constructor|].
-  unfold run, step, init_r, connected, establish. cbn [r_conn SctpState_eqb r_app a_chans r_cum r_rq a_streams].
+  unfold run, step, init_r, connected, establish, mkApp. cbn [r_conn SctpState_eqb r_app a_chans r_cum r_rq a_streams a_dcep].
   destruct (on_established rc); split; reflexivity.
 Qed.
 
-(* ------------------------------------------------------------------ listed finding: setup replay before established *)
-(* While the handshake is incomplete the endpoint already processes DATA, and INIT / INIT-ACK still
-   overwrite the cumulative TSN.  Client role: COOKIE-ACK is late, the peer's first two messages
-   overtake it, a late duplicate of the INIT-ACK follows, then COOKIE-ACK and the third message.
-   Every chunk has arrived, yet the third message is never delivered (it waits in the reorder
-   queue behind TSNs the peer will never resend): the premise "no DATA before the association is
-   established" of safety_from_start cannot be dropped for its completion part. *)
+(* ------------------------------------------------------------------ any traffic before establishment *)
+(* The whole history with ANY traffic before the association is established: setup chunks
+   (duplicated, superseded INIT-ACKs, invalid cookies ...) and arbitrary DATA -- which is dropped,
+   fix 165fa18 --, then the establishing COOKIE-ACK / valid COOKIE-ECHO, then genuine arrivals and
+   setup chunks. The stream is numbered from the TSN held at establishment (the last INIT /
+   INIT-ACK). Completion needs every chunk to arrive at least once AFTER establishment. *)
+Theorem safety_any_handshake sc W t0 rc pre0 e h :
+  Z.of_nat (length (chunks sc W t0)) < 2147483648 ->
+  wf_workload sc W ->
+  Forall pre_input pre0 ->
+  r_conn (fst (run (init_r 0 rc) pre0)) <> SctpState_Connected ->
+  r_cum (fst (run (init_r 0 rc) pre0)) = w32 (t0 - 1) ->
+  e = ICookieAck \/ e = ICookieEcho true ->
+  Forall (genuine_input (chunks sc W t0)) h ->
+  (forall c, exists n, log_of c (snd (run (init_r 0 rc) (pre0 ++ e :: h))) = firstn n (submitted W c)) /\
+  ((forall c, In c (chunks sc W t0) -> In (IData c) h) ->
+   forall c, find_chan c rc <> None -> log_of c (snd (run (init_r 0 rc) (pre0 ++ e :: h))) = submitted W c).
+Proof.
+  intros Hlen Hwf Hpre Hnc Hcum He Hh. rewrite chunks_length in Hlen.
+  destruct (recv_refines_any_handshake t0 (pchunks sc [] W) rc pre0 e h Hlen (pchunks_not_dcep sc W [] Hwf) Hpre Hnc Hcum He)
+    as (k & _ & _ & Hlog & Hfull).
+  { eapply Forall_impl; [|exact Hh]. intros i. apply genuine_ok. }
+  split.
+  - intros c. rewrite Hlog. exact (prefix_logged sc W [] (mkApp rc []) k c Hwf (ssn_rel_init sc rc)).
+  - intros Hall c Hc. specialize (Hfull Hall). subst k. rewrite Hlog, firstn_all.
+    exact (all_logged sc W [] (mkApp rc []) c Hwf (ssn_rel_init sc rc) Hc).
+Qed.
+
+(* The former finding F11b / F27 (fixed by 165fa18), as a regression example. Client role: the
+   COOKIE-ACK is late, the peer's first two messages overtake it (now dropped), a late duplicate
+   of the INIT-ACK follows, then COOKIE-ACK and the third message; the peer retransmits the two
+   unacknowledged messages. Everything is delivered once, in order, after Open. *)
 Definition f11_sc : list schan := [mkSC 0 true 1200].
 Definition f11_W : list sub := [mkSub 0 53 [97]; mkSub 0 53 [98]; mkSub 0 53 [99]].
 Definition f11_t0 : Z := 5000.
 Definition f11_rc : list chan := [mkChan 0 true true [110; 48] [] None None DataChannelState_Connecting []].
-Definition f11_h : list input :=
+Definition f11_pre : list input :=
   let cs := chunks f11_sc f11_W f11_t0 in
-  [IInitAck f11_t0 true; IData (nth 0 cs (D 0 0 0 0 0 [])); IData (nth 1 cs (D 0 0 0 0 0 []));
-   IInitAck f11_t0 true; ICookieAck; IData (nth 2 cs (D 0 0 0 0 0 []))].
+  [IInitAck f11_t0 true; IData (nth 0 cs (D 0 0 0 0 0 [])); IData (nth 1 cs (D 0 0 0 0 0 [])); IInitAck f11_t0 true].
+Definition f11_post : list input :=
+  let cs := chunks f11_sc f11_W f11_t0 in
+  [IData (nth 2 cs (D 0 0 0 0 0 [])); IData (nth 0 cs (D 0 0 0 0 0 [])); IData (nth 1 cs (D 0 0 0 0 0 []))].
 
-Theorem setup_replay_stall_witness :
-  wf_workload f11_sc f11_W /\
-  Forall (genuine_input (chunks f11_sc f11_W f11_t0)) f11_h /\
-  (forall c, In c (chunks f11_sc f11_W f11_t0) -> In (IData c) f11_h) /\
-  find_chan 0 f11_rc <> None /\
-  log_of 0 (snd (run (init_r 0 f11_rc) f11_h)) = [[97]; [98]] /\
-  submitted f11_W 0 = [[97]; [98]; [99]] /\
-  length (r_rq (fst (run (init_r 0 f11_rc) f11_h))) = 1%nat.
+Example setup_replay_fixed :
+  Forall pre_input f11_pre /\
+  r_conn (fst (run (init_r 0 f11_rc) f11_pre)) <> SctpState_Connected /\
+  r_cum (fst (run (init_r 0 f11_rc) f11_pre)) = w32 (f11_t0 - 1) /\
+  evs_of 0 (snd (run (init_r 0 f11_rc) f11_pre)) = [] /\
+  evs_of 0 (snd (run (init_r 0 f11_rc) (f11_pre ++ ICookieAck :: f11_post))) = [EOpen; EMsg [97]; EMsg [98]; EMsg [99]].
 Proof.
-  split; [unfold wf_workload, f11_W; repeat (constructor; [split; vm_compute; discriminate|]); constructor|].
-  split.
-  { unfold f11_h. repeat (constructor; [first [exact I | apply nth_In; vm_compute; repeat constructor]|]). constructor. }
-  split.
-  { intros c Hc. vm_compute in Hc. vm_compute. intuition (subst; auto 10). }
-  split; [vm_compute; discriminate|]. repeat split; vm_compute; reflexivity.
-Qed.
-
-Theorem setup_replay_refuted :
-  exists sc W t0 rc h,
-    Z.of_nat (length (chunks sc W t0)) < 2147483648 /\ wf_workload sc W /\
-    Forall (genuine_input (chunks sc W t0)) h /\
-    (forall c, In c (chunks sc W t0) -> In (IData c) h) /\
-    exists c, find_chan c rc <> None /\ log_of c (snd (run (init_r 0 rc) h)) <> submitted W c.
-Proof.
-  exists f11_sc, f11_W, f11_t0, f11_rc, f11_h.
-  destruct setup_replay_stall_witness as (H1 & H2 & H3 & H4 & H5 & H6 & _).
-  split; [vm_compute; reflexivity|]. repeat split; try assumption.
-  exists 0. split; [exact H4|]. rewrite H5, H6. discriminate.
+  split; [repeat constructor|]. split; [vm_compute; discriminate|]. repeat split; vm_compute; reflexivity.
 Qed.
 
 (* ------------------------------------------------------------------ C12: integrity on every reliable channel *)
@@ -226,22 +233,25 @@ Proof.
   destruct Hin as [<-|[]]. repeat split; assumption.
 Qed.
 
-(* ------------------------------------------------------------------ C12: listed findings, model witnesses *)
-(* Message before Open on a negotiated channel: DATA that overtakes the COOKIE-ACK is delivered
-   while the association (and the channel) is still Connecting *)
-Example message_before_open_witness :
+(* ------------------------------------------------------------------ C12: former findings F27 / F11b, fixed *)
+(* DATA that overtakes the COOKIE-ACK is dropped; after COOKIE-ACK the retransmission is delivered,
+   after Open *)
+Example message_after_open_fixed :
   evs_of 0 (snd (run (init_r 0 f11_rc)
-                     [IInitAck 5000 true; IData (D 5000 3 0 0 53 [97]); ICookieAck])) = [EMsg [97]; EOpen].
+                     [IInitAck 5000 true; IData (D 5000 3 0 0 53 [97]); ICookieAck; IData (D 5000 3 0 0 53 [97])]))
+  = [EOpen; EMsg [97]].
 Proof. vm_compute. reflexivity. Qed.
 
-(* duplicate delivery on an UNORDERED reliable channel after a setup replay before establishment *)
+(* the setup replay on an UNORDERED reliable channel no longer duplicates *)
 Definition f11u_rc : list chan := [mkChan 0 false true [110; 48] [] None None DataChannelState_Connecting []].
-Example unordered_duplicate_witness :
+Example unordered_no_duplicate_fixed :
   log_of 0 (snd (run (init_r 0 f11u_rc)
                      [IInitAck 5000 true; IData (D 5000 7 0 0 53 [97]); IInitAck 5000 true;
-                      IData (D 5000 7 0 0 53 [97]); ICookieAck])) = [[97]; [97]].
+                      IData (D 5000 7 0 0 53 [97]); ICookieAck; IData (D 5000 7 0 0 53 [97]); IData (D 5000 7 0 0 53 [97])]))
+  = [[97]].
 Proof. vm_compute. reflexivity. Qed.
 
+(* ------------------------------------------------------------------ C12: listed finding F21, model witnesses *)
 (* FORWARD-TSN (F21): (iv) the cumulative point advances but the chunk that is now next stays in
    the reorder queue and nothing is delivered until further DATA arrives; (ii) the comparison is
    numeric, so a FORWARD-TSN across the 2^32 wrap is ignored *)
